@@ -49,6 +49,21 @@ def check(ctx):
                              'pop(0)/remove(x); it is re-bound only to an empty list in the reset; it never escapes')
     obs.append(o)
     n_ins = n_rem = 0
+    from . import c07
+    movers = inv.covered(P, set(c07.OPS))
+
+    def order_broken(fname):
+        """does the per-element analysis of pause / unpause / cancel report an order-breaking or unrecognised construct?"""
+        for op in c07.OPS:
+            try:
+                table = c07.element_table(P, Env, op)
+            except Exception:       # noqa: BLE001
+                return True
+            for paths in table.values():
+                for r in paths:
+                    if any(k in ('unordered', 'unrecognised', 'rebind', 'escape') for k, _, _ in r['log']):
+                        return True
+        return False
     family = {'sorted-list': [], 'heap': []}     # the two accepted queue disciplines must not be mixed
     for s in inv.attr_uses(P, '_events'):
         role = s.extra['role']
@@ -68,6 +83,11 @@ def check(ctx):
                 for t in ast.walk(s.func))
             if not (empty and resets_clock):
                 ok, msg = False, 'the pending-event list is re-bound outside the reset or to a non-empty value'
+        elif kind == 'subscript-store' and inside and s.func is not None and s.func.name in movers and not order_broken(s.func.name):
+            # `self._events[:] = <order-preserving selection of self._events>`: decided by the per-element analysis (sa/elem.py, C07)
+            mutating = True
+            n_rem += 1
+            family['sorted-list'].append(s)
         elif kind in ('augstore', 'del', 'subscript-store', 'subscript-del'):
             mutating = True
             ok, msg = False, f'unordered mutation of the pending-event list ({kind})'
@@ -112,6 +132,10 @@ def check(ctx):
             pass
         elif kind == 'binop' and role[1] == 'Add' and not isinstance(s.stmt, ast.AugAssign):
             pass
+        elif kind == 'other' and isinstance(s.mod.parents.get(s.node), (ast.Tuple, ast.List)) and \
+                isinstance(s.mod.parents.get(s.mod.parents.get(s.node)), (ast.For, ast.comprehension)) and \
+                s.mod.parents.get(s.mod.parents.get(s.node)).iter is s.mod.parents.get(s.node):
+            pass       # `for lst in (self._events, self._paused_events): ...` -- the lists are iterated, what the body does is seen at its own sites
         elif kind in ('return', 'assign-alias', 'other', 'attr', 'binop'):
             ok, msg = False, f'the pending-event list escapes or is used in an unrecognised way ({role[0]})'
         if mutating and not inside:
@@ -336,12 +360,12 @@ def check(ctx):
         o6.sample({'entry': s0.show(), 'exits': [s.show() for s in res.exits()]})
     for s in inv.method_calls(P, 'action'):
         o6.count()
-        if not (s.cls is Ev and s.func is not None and s.func.name == 'execute'):
+        if not (s.cls is Ev and s.func is not None and s.func.name in inv.covered(P, {'execute'})):
             o6.fail(P, s.ctx, s.stmt, "an event's action is called outside Event.execute", file=s.mod.path, line=s.line)
     n_exec = 0
     for s in inv.method_calls(P, 'execute'):
         o6.count()
-        if s.cls is Env and s.func.name == 'step':
+        if s.cls is Env and s.func.name in inv.covered(P, {'step'}):      # step itself or a private helper reachable only from step (C01.3 inlines it)
             n_exec += 1
         else:
             o6.fail(P, s.ctx, s.stmt, 'Event.execute() is called outside Environment.step', file=s.mod.path, line=s.line)
@@ -458,36 +482,34 @@ def check(ctx):
 
 
 def unpause_time_form(P, o):
-    """shared with C07.2: normal form of the time given to an event when it is unpaused"""
+    """shared with C06.6 / C07.2: normal form of the time given to an event when it is unpaused, read off the per-element effect of
+    unpause_matching_events on a paused event whose asset id matches (sa/elem.py) -- whatever the loop is spelled like"""
+    from . import c07
     Env = P.cls('Environment')
     dk, fn = P.method(Env, 'unpause_matching_events')
     N = Normalizer(P, Env)
-    from ..norm import single_defs
-    defs = single_defs(fn)      # locals with one definition (e.g. `resume_time = self.now`) are substituted
-    writes = []
-    for n in ast.walk(fn):
-        if isinstance(n, ast.AugAssign) and isinstance(n.target, ast.Attribute) and n.target.attr == 'time':
-            v = n.value if isinstance(n.op, ast.Add) else ast.UnaryOp(ast.USub(), n.value) if isinstance(n.op, ast.Sub) else None
-            ev = ast.unparse(n.target.value)
-            load = ast.Attribute(n.target.value, 'time', ast.Load())
-            writes.append((n, ev, N.norm(ast.BinOp(load, ast.Add(), v), defs) if v is not None else None))
-        elif isinstance(n, ast.Assign) and any(isinstance(t, ast.Attribute) and t.attr == 'time' for t in n.targets):
-            t = [t for t in n.targets if isinstance(t, ast.Attribute)][0]
-            writes.append((n, ast.unparse(t.value), N.norm(n.value, defs)))
+    table = c07.element_table(P, Env, 'unpause_matching_events')
+    paths = table[('_paused_events', True, True)]
     o.count()
-    if len(writes) != 1:
-        o.fail(P, 'Environment.unpause_matching_events', 'event.time += self.now - event.paused_at',
-               f'expected exactly one update of the event time on unpause, found {len(writes)}', file=Env.mod.path, line=fn.lineno)
-        return None
-    n, ev, lin = writes[0]
-    if lin is None or not lin.is_({'NOW': 1, f'{ev}.time': 1, f'{ev}.paused_at': -1}):
-        o.fail(P, 'Environment.unpause_matching_events', n,
-               f'the unpaused time must be time + now - paused_at (pause length added), found `{lin.key() if lin else "?"}`',
-               file=Env.mod.path, line=n.lineno)
-    else:
-        o.witness('form')
-        o.sample({'stmt': ast.unparse(n), 'normal_form': lin.key(), 'file': P.rel(Env.mod.path), 'line': n.lineno})
-    return n
+    done = None
+    for r in paths:
+        writes = [w for w in r['writes'] if w[0] == 'time']
+        if len(writes) != 1:
+            o.fail(P, 'Environment.unpause_matching_events', 'event.time += self.now - event.paused_at',
+                   f'expected exactly one update of the event time on unpause, found {len(writes)}', file=Env.mod.path, line=fn.lineno)
+            return None
+        attr, rhs, seq, line = writes[0]
+        lin = N.norm(rhs, {})
+        if lin is None or not lin.is_({'NOW': 1, 'E_.time': 1, 'E_.paused_at': -1}):
+            o.fail(P, 'Environment.unpause_matching_events', ast.unparse(rhs),
+                   f'the unpaused time must be time + now - paused_at (pause length added), found `{lin.key() if lin else "?"}`',
+                   file=Env.mod.path, line=line)
+        else:
+            o.witness('form')
+            if done is None:
+                o.sample({'expr': ast.unparse(rhs), 'normal_form': lin.key(), 'file': P.rel(Env.mod.path), 'line': line})
+        done = rhs
+    return done
 
 
 def lt_keys(P, Ev, o):
